@@ -11,7 +11,7 @@ import os
 
 THEOREMS = ["IstioModel.C02.Theorems", "IstioModel.C02.QueueTheorems", "IstioModel.C02.QueueRefinement",
             "IstioModel.C02.DebounceTheorems", "IstioModel.C02.SenderTheorems"]
-STREAMS = ("merge", "queue", "debounce", "sender")
+STREAMS = ("merge", "queue", "debounce", "sender", "server")
 
 
 def oracle(ctx, stream, case_lines, rep, only_case=False):
@@ -328,6 +328,8 @@ def run(ctx):
     # sender.go); small on purpose
     robust(ctx, timing_stream, ctx, "debounce", ctx.n(120, 1500))
     robust(ctx, timing_stream, ctx, "sender", ctx.n(120, 1500))
+    # a real DiscoveryServer with real stream loops (ConfigUpdate .. Event.pushRequest of every connection)
+    robust(ctx, timing_stream, ctx, "server", ctx.n(100, 1200))
     for stream in STREAMS:
         robust(ctx, oracle_all, ctx, stream)
     robust(ctx, stress, ctx)
